@@ -66,7 +66,19 @@ func (l *EventsLoader) LoadAndVerify(ctx context.Context, rawEvents []json.RawMe
 		events = append(events, event)
 	}
 
-	events = ReverseTopologicalOrdering(events, sortOrder)
+	// The ordering returns every event once. Put an event that was listed more than once back as
+	// often as it was listed, so that there is still exactly one result per input.
+	listed := make(map[string]int, len(events))
+	for _, event := range events {
+		listed[event.EventID()]++
+	}
+	sorted := ReverseTopologicalOrdering(events, sortOrder)
+	events = make([]PDU, 0, len(rawEvents))
+	for _, event := range sorted {
+		for n := listed[event.EventID()]; n > 0; n-- {
+			events = append(events, event)
+		}
+	}
 	// assign the errors to the end of the slice
 	for i := 0; i < len(errs); i++ {
 		results[len(results)-len(errs)+i] = EventLoadResult{
